@@ -23,7 +23,8 @@ WriteClause(v) == LET h == Hdr(v.from, v.to, v.id, v.type, v.res0)  r == Tmrh20R
 \* kind "abort": a fragmented write() whose k-th fragment is never acknowledged: whatever went on air is part of the
 \* reference fragment sequence, and the caller's header shows its original type again
 AbortClause(v) == LET h == Hdr(v.from, v.to, v.id, v.type, v.res0)  ref == Fragments(h, v.msg) IN
-                  IF \E k \in 1..Len(v.air) : ~\E j \in 1..Len(ref) : v.air[k] = ref[j] THEN <<"C11.Fragments", "a frame on air is not one of the reference fragments">>[1]
+                  IF v.ret THEN "C11.Fragments"      \* True although one of the reference fragments was never acknowledged: it was not sent
+                  ELSE IF \E k \in 1..Len(v.air) : ~\E j \in 1..Len(ref) : v.air[k] = ref[j] THEN <<"C11.Fragments", "a frame on air is not one of the reference fragments">>[1]
                   ELSE IF v.type_after # v.type_before THEN "C11.TypeRestored" ELSE "ok"
 Clause(v) == CASE v.kind = "abort" -> AbortClause(v) [] v.kind = "hdr" -> HdrClause(v) [] v.kind = "frame" -> FrameClause(v)
                [] v.kind = "short" -> ShortClause(v) [] v.kind = "write" -> WriteClause(v)
